@@ -112,15 +112,35 @@ Proof.
   rewrite static_fields_length in Hk. rewrite static_len_61. lia.
 Qed.
 
+Lemma search_static_spec0 hf n fm :
+  search_static static_fields 0 hf 0 false = (n, fm) -> stat_hit hf n fm.
+Proof.
+  intros H.
+  exact (search_static_spec hf static_fields [] 0 false n fm eq_refl (or_introl eq_refl) H).
+Qed.
+
+Lemma search_dynamic_spec0 hf dyn n fm :
+  search_dynamic dyn 0 (N.of_nat (length dyn)) hf = (n, fm) ->
+  (n = 0 /\ fm = false) \/ (fm = true /\ dyn_hit dyn hf n).
+Proof.
+  intros H.
+  exact (search_dynamic_spec hf (N.of_nat (length dyn)) dyn [] n fm H eq_refl).
+Qed.
+
+Lemma search_unfold st hf : search st hf =
+  let '(n, fullMatch) := search_dynamic (h_dynamic st) 0 (N.of_nat (length (h_dynamic st))) hf in
+  if n =? 0 then search_static static_fields 0 hf 0 fullMatch else (n, fullMatch).
+Proof. reflexivity. Qed.
+
 Theorem search_spec st hf n fm : N.of_nat (length (h_dynamic st)) < 2 ^ 63 ->
   search st hf = (n, fm) -> search_hit st hf n fm.
 Proof.
-  intros Hlen H. unfold search in H.
+  intros Hlen H. rewrite search_unfold in H.
   destruct (search_dynamic (h_dynamic st) 0 (N.of_nat (length (h_dynamic st))) hf) as [n1 fm1] eqn:E.
-  apply (search_dynamic_spec hf _ (h_dynamic st) [] n1 fm1) in E; [|reflexivity].
-  cbn [app] in E. destruct E as [[-> ->]|[-> Hd]].
-  - cbn [N.eqb] in H.
-    apply (search_static_spec hf static_fields [] 0 false n fm) in H; [|reflexivity|left; reflexivity].
+  apply search_dynamic_spec0 in E.
+  destruct E as [[-> ->]|[-> Hd]].
+  - rewrite N.eqb_refl in H.
+    apply search_static_spec0 in H.
     right. split; [eapply stat_hit_range; exact H | exact H].
   - pose proof (dyn_hit_range _ _ _ Hlen Hd) as R.
     replace (n1 =? 0) with false in H by (symmetry; apply N.eqb_neq; unfold c_maxIndex in R; lia).
@@ -190,4 +210,37 @@ Proof.
   intros st hf i full Hlen H Hpos.
   destruct (search_lookup st hf i full Hlen H Hpos) as [v [L V]].
   exists (f_key hf), v. split; [exact L|]. split; [reflexivity | exact V].
+Qed.
+
+(* ---- why the bound is there ----
+
+   [search] computes the index in uint64. A Coq list can be longer than any Go slice: with
+   2^64 - 60 entries the newest-first index of the oldest one, 62 + (2^64 - 60) - 0 - 1, wraps
+   around to 1, which is ":authority" of the static table. The statement without the bound on
+   len(hp.dynamic) is therefore false of the model (and vacuous for the Go code, whose slices are
+   shorter than 2^63). *)
+
+Definition xy : field := mkF [120] [121] false.
+
+Lemma search_wraps k : N.of_nat (S k) = 2 ^ 64 - 60 ->
+  search (mkH false false (repeat xy (S k)) 0 0 false 0) xy = (1, true).
+Proof.
+  intros Hk. rewrite search_unfold. cbn [h_dynamic]. rewrite repeat_length.
+  cbn [repeat search_dynamic].
+  change (bytes_eqb (f_key xy) (f_key xy) && bytes_eqb (f_value xy) (f_value xy)) with true.
+  cbv iota. rewrite Hk.
+  change (u64 (c_maxIndex + (2 ^ 64 - 60) - 0 - 1)) with 1. reflexivity.
+Qed.
+
+Theorem search_sound_needs_bound :
+  ~ (forall st hf i full, search st hf = (i, full) -> 0 < i ->
+       exists n v, lookup (abs st) i = Some (n, v) /\ n = f_key hf /\ (full = true -> v = f_value hf)).
+Proof.
+  intros H.
+  assert (exists k, N.of_nat (S k) = 2 ^ 64 - 60) as [k Hk].
+  { exists (N.to_nat (2 ^ 64 - 61)). rewrite Nat2N.inj_succ, N2Nat.id. reflexivity. }
+  destruct (H _ xy 1 true (search_wraps k Hk) eq_refl) as [n [v [L [E _]]]].
+  unfold lookup in L. rewrite static_len_61 in L. cbn [N.eqb N.leb N.compare Pos.compare Pos.compare_cont] in L.
+  change (idx rfc_static_table (1 - 1)) with (Some ([58; 97; 117; 116; 104; 111; 114; 105; 116; 121], @nil N)) in L.
+  injection L as <- _. discriminate E.
 Qed.
